@@ -202,6 +202,32 @@ def e1_roots(tier):
                     c["explore"] = 0
                     c["tag"]["special"] = "exact-ties"
                     out.append(c)
+    # barrier values (NaN regions of the objective) next to ordinary values: the tie tolerance must follow the
+    # running least merit, not the merit of the previous centre
+    for n in ns:
+        for pats in [("wide",) * n, ("free",) * n]:
+            for x0 in ("in", "out"):
+                for cons in ["lin_le", "ball_le", "cubic_le", "nl_vec", "lin_mixed"]:
+                    for nan in ["half", "outball", "inball"]:
+                        for scale in ((False, True) if pats[0] == "wide" else (False,)):
+                            c = alpha.base_case(n, pats, x0, "quad", cons, nan=nan,
+                                                options={"maxfev": 40 * n, "scale": scale})
+                            c["monitors"] = ["tr", "centre"]
+                            c["explore"] = 0
+                            c["tag"]["special"] = "barrier-values"
+                            out.append(c)
+    # radius_final = 0 on flat objectives: the resolution and the radius decrease until they underflow
+    for n in ns:
+        for pats in [("free",) * n, ("wide",) * n]:
+            for cons in ["none", "lin_le", "ball_le"]:
+                for obj in ["const", "abs"]:
+                    for r0 in (2.0 ** -10, 2.0 ** -1060):
+                        c = alpha.base_case(n, pats, "in", obj, cons,
+                                            options={"radius_init": r0, "radius_final": 0.0, "maxfev": 40, "maxiter": 4000})
+                        c["monitors"] = ["tr", "centre"]
+                        c["explore"] = 0
+                        c["tag"]["special"] = "radius-underflow"
+                        out.append(c)
     from .. import cover
     out += cover.roots_for(tier, monitors=["tr", "centre"])
     for c in out:
